@@ -120,20 +120,20 @@ NOT_APPLICABLE_PENDING = "rules for this property are not built yet (work in pro
 ALSO = {
  "C01": " Also (shared rules): a successful transactional Put/Delete has buffered exactly that operation; immutable memtables leave the pool only into the flush path; the buffered log writer is never replaced without a flush and fragment writer/reader agree on chunk boundaries. After round 5: recovery's last table stays mutable; MemTable.Get's table; comparator without subtraction. After round 6: flush keeps only the newest version collected per key. After round 7: delta base is the predecessor. After round 8: the fetcher accepts every block size. After round 9: the pool-write and selection-order rules are listed here too. After round 10: the loader loads every table file; memtable writes always insert. After round 11: the table iterator loads the block it indexed.",
  "C02": " Also: no read after the first of a record can leave readRecord as a clean io.EOF; the batch pre-validation uses writeRecord's own size formula; fragment writer/reader agree on chunk boundaries. After round 5: the log file is written through the buffered writer only; == vs errors.Is in the replay error classes; recovery's last table stays mutable. After round 6: recovery's limits are the configured limits. After round 8: replay mirrors the live apply. After round 9: the log reader's open fails only on I/O errors; temporary table names are invisible to the loaders. After round 10: the loader loads every table file.",
- "C03": " Also: a successful transactional Put/Delete has buffered exactly that operation; a log file is reused for appending only behind a clean tail; the retry wrapper's decision table (success only after a successful call; error after exhausted retries). After round 5: the record writers never flush or write the file directly (a batch reaches the file in one piece). After round 6: the buffer keeps no stale derived view; Buffer.Get returns a copy; the log has no batch frame (open finding: a torn final write recovers a strict subset of a transaction). After round 7: sealing only with replacement; 'closed' only when closed. After round 8: merge Next steps children with Next only. After round 9: value copies keep nil nil; sources hand tombstones to the merge. After round 10: memtable writes always insert; the storage mutators' callers are listed here too.",
- "C04": " Also: a successful transactional Put/Delete has buffered exactly that operation; batch entries are stamped with the number the log assigned; an empty value is never turned into a deletion marker. After round 5: the retry wrapper's decision table. After round 6: the buffer-view rule; Delete advances the memtable snapshot bound like Put. After round 7: transaction reads hold tx.mu; scan sources complete. After round 8: buffer Seek ignores the old position; bounds table cross-listed. After round 9: the buffer iterator positions without looking at deletion markers.",
+ "C03": " Also: a successful transactional Put/Delete has buffered exactly that operation; a log file is reused for appending only behind a clean tail; the retry wrapper's decision table (success only after a successful call; error after exhausted retries). After round 5: the record writers never flush or write the file directly (a batch reaches the file in one piece). After round 6: the buffer keeps no stale derived view; Buffer.Get returns a copy; the log has no batch frame (open finding: a torn final write recovers a strict subset of a transaction). After round 7: sealing only with replacement; 'closed' only when closed. After round 8: merge Next steps children with Next only. After round 9: value copies keep nil nil; sources hand tombstones to the merge. After round 10: memtable writes always insert; the storage mutators' callers are listed here too. After round 11: copy helpers keep empty non-nil.",
+ "C04": " Also: a successful transactional Put/Delete has buffered exactly that operation; batch entries are stamped with the number the log assigned; an empty value is never turned into a deletion marker. After round 5: the retry wrapper's decision table. After round 6: the buffer-view rule; Delete advances the memtable snapshot bound like Put. After round 7: transaction reads hold tx.mu; scan sources complete. After round 8: buffer Seek ignores the old position; bounds table cross-listed. After round 9: the buffer iterator positions without looking at deletion markers. After round 11: the Value() copy obligations are listed here too.",
  "C06": " Also: the retry wrapper's decision table; immutable memtables leave the pool only into the flush path; the sequence counter is handed over at rotation; every Append* reads the status with WAL.mu held. After round 6: write-ahead and entry-copies cross-listed. After round 7: GetNextSequence answers in every state. After round 8: pool writes always reach the table. After round 9: facade reads make their storage lookup during the call. After round 10: memtable writes always insert; the facade reports an error only if storage refused. After round 11: shared table files are read positionally.",
- "C07": " Also: the database-wide transaction lock is released on every exit of Commit/Rollback after the active swap; pairing: every lock acquired in a function of pkg/ is released or deferred before every reachable return. After round 5: no blocking channel send under a lock. After round 7: no shared map handed out. After round 8: guarded maps are used under their lock. After round 9: the shared parts of a table reader are written only under their own exclusive lock. After round 10: waits on a published signal channel are released by close. Also after round 10: no try-lock fallbacks. After round 11: shared table files are read positionally.",
- "C15": " Also: no re-entrant acquisition of a receiver's lock in the replication package; the primary's gRPC server pings idle connections. After round 5: Primary.sessions is written under the exclusive lock only. After round 7: the session's stream is never cleared. After round 8: the node-info handler keeps no state. After round 9: session lookups are nil-checked before use; the heartbeat monitor always starts. After round 10: observer callbacks do not re-enter the log.",
+ "C07": " Also: the database-wide transaction lock is released on every exit of Commit/Rollback after the active swap; pairing: every lock acquired in a function of pkg/ is released or deferred before every reachable return. After round 5: no blocking channel send under a lock. After round 7: no shared map handed out. After round 8: guarded maps are used under their lock. After round 9: the shared parts of a table reader are written only under their own exclusive lock. After round 10: waits on a published signal channel are released by close. Also after round 10: no try-lock fallbacks. After round 11: shared table files are read positionally. Also after round 11: the raw transaction lock's users are listed here too.",
+ "C15": " Also: no re-entrant acquisition of a receiver's lock in the replication package; the primary's gRPC server pings idle connections. After round 5: Primary.sessions is written under the exclusive lock only. After round 7: the session's stream is never cleared. After round 8: the node-info handler keeps no state. After round 9: session lookups are nil-checked before use; the heartbeat monitor always starts. After round 10: observer callbacks do not re-enter the log. After round 11: the heartbeat configuration is used as given.",
  "C16": " Also: reflective method lookups name only the engine's own BeginTransaction. After round 5: the manager only raises the read-only flag; the *Internal entry points do not take the transaction lock. After round 6: node info reports the engine's mode. After round 7: remote begin goes through the engine. After round 8: the mode is compared verbatim everywhere. After round 9: mutating handlers report success only behind the embedded call. After round 10: the replica dials the address the node information reports.",
- "C17": " Also: the lock pairing rule (every acquisition released or deferred before every reachable return). After round 7: connection tracking is dropped only when empty. After round 8: the sweeper sweeps on every tick. After round 9: the default idle limit is below the default lifetime limit. After round 10: the registry's no-reentrancy obligations are listed here too.",
- "C18": " Also: MemTable.Get's decision table over the immutable and the mutable arm. After round 5: pool writes hold the pool lock; comparator without subtraction. After round 6: read accessors return copies (tree defect in MemTable.Get repaired). After round 7: adapter Seek always seeks. After round 10: no try-lock fallbacks.",
+ "C17": " Also: the lock pairing rule (every acquisition released or deferred before every reachable return). After round 7: connection tracking is dropped only when empty. After round 8: the sweeper sweeps on every tick. After round 9: the default idle limit is below the default lifetime limit. After round 10: the registry's no-reentrancy obligations are listed here too. After round 11: connection clean-up forwards the id verbatim; TTL parameters land in the like-named fields.",
+ "C18": " Also: MemTable.Get's decision table over the immutable and the mutable arm. After round 5: pool writes hold the pool lock; comparator without subtraction. After round 6: read accessors return copies (tree defect in MemTable.Get repaired). After round 7: adapter Seek always seeks. After round 10: no try-lock fallbacks. After round 11: copy helpers keep empty non-nil.",
  "C19": " Also: the prefix/suffix predicates agree with bytes.HasPrefix/HasSuffix. After round 5: handles are removed only on exits that finished the transaction. After round 7: idle criterion cross-listed. After round 8: responses list distinct elements; handlers keep no state. After round 9: mutating handlers report success only behind the embedded call. After round 10: the filtering Next ends only at a match or the end; the raw transaction lock's users are listed here too. After round 11: the default registry limits are listed here too.",
- "C20": " Also: the temporary manifest file is truncated (or created exclusively) when opened. After round 6: manifest entries grow only with validated configurations. After round 7: Config.Update exclusive; defaults only for nil. After round 8: the current entry is the listed entry. After round 10: components do not modify the shared configuration.",
+ "C20": " Also: the temporary manifest file is truncated (or created exclusively) when opened. After round 6: manifest entries grow only with validated configurations. After round 7: Config.Update exclusive; defaults only for nil. After round 8: the current entry is the listed entry. After round 10: components do not modify the shared configuration. After round 11: the configuration's sentinel errors match by identity.",
  "C13": " Also: Compress/Decompress handle the same codecs with inverse library calls and return fresh memory; per entry type the applier performs the primary's operation with the entry's own key and value. After round 5: no narrowing of encoder values; decoder minimum ≤ encoder minimum; Apply always performs the operation. After round 7: applied prefix recorded (open finding: the prefix of a failed batch is re-applied). After round 9: a resumed applier expects the successor of its start. After round 10: no try-lock fallbacks; applier wrappers record a position only after the apply.",
  "C14": " Also (shared with C13): the replica's cursor discipline; the 'nothing to send' exits of the catch-up reader are decided by the log's own counter; the replica does not lower its gRPC receive limit below the default. After round 5: GetEntriesFrom flushes before reading; entry codec agreement. After round 6: the replica accepts whatever size the primary sends; the error state always returns to CONNECTING. After round 7: the state loop never gives up; the poll sends what it read. After round 8: connecting always dials; the time in the current state is counted from the latest entry into it. After round 10: the back-off depends only on the current error episode.",
  "C08": " Also: every Append* reads the closed/rotating status with WAL.mu held. After round 5: every recovered entry counts into the running maximum; every counter access holds WAL.mu. After round 6: explicit sequence numbers stay below the counter; a log exists before recovery hands the counter over; the reported position is never assigned unguarded in a goroutine; retention criterion cross-listed. After round 7: GetNextSequence answers in every state; acknowledged positions only move forward. After round 8: replay accepts every legal entry type. After round 9: rotations are serialised by one lock (repair 1685eec); the counter hand-over is taken whenever it is larger. After round 10: log segments are deleted only by the reviewed caller. After round 11: the reported sequence is the last used, not the next.",
- "C09": " Also: Append routes by exactly the payload size writeRecord builds; parseEntryData's slices are bounds-checked. After round 5: ReuseWAL reopens the newest file only; no constant bound on decoded lengths in the reader. After round 6: explicit sequence numbers stay below the counter. After round 7: fragments are concatenated. After round 8: file bounds test every entry both ways. After round 9: log files are ordered by name only; the monotone-stores obligations are listed here too. After round 10: the destructive-operation table is listed here too.",
+ "C09": " Also: Append routes by exactly the payload size writeRecord builds; parseEntryData's slices are bounds-checked. After round 5: ReuseWAL reopens the newest file only; no constant bound on decoded lengths in the reader. After round 6: explicit sequence numbers stay below the counter. After round 7: fragments are concatenated. After round 8: file bounds test every entry both ways. After round 9: log files are ordered by name only; the monotone-stores obligations are listed here too. After round 10: the destructive-operation table is listed here too. After round 11: older log files are skipped only strictly below the start.",
  "C10": " Also: the errors ReplayWALFile returns from its damage-handling region are classified 'skip' by ReplayWALDir; no read after the first of a record can leave readRecord as a clean io.EOF. After round 5: an explicit io.EOF only behind err == io.EOF. After round 6: a log exists before recovery. After round 7: resynchronisation drops pending fragments. After round 8: pending fragments are dropped at a damaged record (tree defect repaired 4f4a928; the rule re-stated). After round 9: the log reader's open fails only on I/O errors; no unguarded integer division on the recovery path.",
  "C11": " Also: block.NewReader's callers hand over freshly allocated bytes; decoder limits are not below the format maximum; seek landing (structural part): a lower-bound restart search must examine the previous interval and the index seek must agree with the first-key index — both violated on this tree (recorded findings). After round 5: the temporary file is named after the table's own file. After round 6: the block checksum covers the whole block; table iterators own their block cursors. After round 7: the builder copies what it keeps; delta base. After round 8: fetcher and index cursor rules. locator and fetcher accept every block size; table Seek always asks the index. After round 9 and the repair 9ebed55: the floor search and the floor-then-step composition of Seek are decided; FindBlockForKey agrees with the index key. Also after round 9: the index key is the first key verbatim; every block's filter is loaded. After round 10: no cap on a block locator's size anywhere in the table reader. Also after round 10: every block filter is written. After round 11: the block lookup compares the key; the table iterator loads what it indexed and marks itself positioned.",
  "C12": " Also: the selection range is the union of the selected files (min and max updated independently); sort comparators index the slice being sorted. After round 5: the default executor receives a non-nil tombstone tracker. After round 6: selection takes the oldest files by creation time (tree defect repaired). CompactRange's selection is closed under key sharing (tree defect repaired). After round 7: every load describes the files afresh. After round 8: CompactRange repeats after every selection; one tombstone tracker. After round 9: overlap scans visit every file of a level; the strategy's readers are closed only when no cycle runs. After round 10: the source files of a task are a prefix of the oldest-first order.",
